@@ -4,13 +4,15 @@ For each seeded change (patch.diff, zz_seed_demo_test.go, meta.json): confirm it
 (applies, builds, existing suite passes, demo fails with / passes without the change), run the property's quick
 check against that worktree (VERIF_REPO), store everything under /verif/seeded/<PID>-<n>/ and remove the worktree."""
 import json, os, shutil, subprocess, sys, time
+ROOT = os.path.dirname(os.path.dirname(os.path.abspath(__file__)))   # /verif, or a snapshot of it (vp run)
 ENV = dict(os.environ, GOFLAGS="-mod=mod", GOPROXY="off")
 def sh(cmd, cwd=None, env=ENV, timeout=3600):
     p = subprocess.run(cmd, shell=True, cwd=cwd, env=env, stdout=subprocess.PIPE, stderr=subprocess.STDOUT, text=True, errors="replace", timeout=timeout)
     return p.returncode, p.stdout
 def one(pid, src):
-    name = "%s-%s" % (pid, os.path.basename(src.rstrip("/")))
-    dst = os.path.join("/verif/seeded", name)
+    base = os.path.basename(src.rstrip("/"))
+    name = base if base.startswith(pid + "-") else "%s-%s" % (pid, base)
+    dst = os.path.join(ROOT, "seeded", name)
     w = "/tmp/seedverify-%s-%d" % (name, os.getpid())
     sh("git -C /repo worktree add -q --detach %s HEAD" % w)
     res = {}
@@ -25,17 +27,18 @@ def one(pid, src):
             os.remove(os.path.join(w, "pgdump", "zz_seed_demo_test.go"))
             rc, out = sh("go build ./... && go test -vet=off -count=1 ./...", cwd=w); res["suite_passes_with_change"] = rc == 0
             t0 = time.time()
-            rc, out = sh("bin/check %s quick" % pid, cwd="/verif", env=dict(ENV, VERIF_REPO=w))
+            rc, out = sh("bin/check %s quick" % pid, cwd=ROOT, env=dict(ENV, VERIF_REPO=w))
             lines = [l for l in out.splitlines() if l.startswith(("VIOLATION", "property=", "KNOWN-FINDING"))]
             res["check_exit"] = rc; res["check_output"] = lines[:8]; res["check_wall_s"] = round(time.time() - t0, 1)
             res["detected"] = rc == 1 and any(l.startswith("VIOLATION") for l in lines)
             res["detected_with_failing_input"] = any(l.startswith("VIOLATION") and "no-failing-input-found" not in l for l in lines)
     finally:
         sh("git -C /repo worktree remove --force %s" % w)
-        shutil.rmtree("/verif/build/harness-%s-%s" % (__import__("hashlib").sha1(w.encode()).hexdigest()[:8], pid), ignore_errors=True)
+        shutil.rmtree(ROOT + "/build/harness-%s-%s" % (__import__("hashlib").sha1(w.encode()).hexdigest()[:8], pid), ignore_errors=True)
     os.makedirs(dst, exist_ok=True)
     for f in ("patch.diff", "zz_seed_demo_test.go"):
-        shutil.copy(os.path.join(src, f), dst)
+        if os.path.abspath(src) != os.path.abspath(dst):
+            shutil.copy(os.path.join(src, f), dst)
     meta = {}
     try:
         meta = json.load(open(os.path.join(src, "meta.json")))
@@ -49,5 +52,16 @@ def one(pid, src):
     for l in res.get("check_output", [])[:3]:
         print("   ", l, flush=True)
 args = sys.argv[1:]
-for i in range(0, len(args), 2):
-    one(args[i], args[i + 1])
+if args and args[0] == "--all":
+    # re-run every stored seed against the current /repo HEAD and the current checks (optionally only some properties)
+    only = set(args[1:])
+    import glob
+    for d in sorted(glob.glob(os.path.join(ROOT, "seeded", "*", ""))):
+        name = os.path.basename(d.rstrip("/"))
+        pid, k = name.rsplit("-", 1)
+        if only and pid not in only:
+            continue
+        one(pid, d.rstrip("/"))
+else:
+    for i in range(0, len(args), 2):
+        one(args[i], args[i + 1])
